@@ -605,12 +605,14 @@ func (x *Exec) callRepo(fu *FuncUnit, recv *Value, args []Value, e *ast.CallExpr
 		if uc.Inline {
 			return x.inlineCall(fu, recv, args, e, st)
 		}
+		x.calleeAbort(fu, uc, st)
 		return x.callWithContract(fu, uc, recv, args, e, st)
 	}
 	// tiny helpers without contract whose body is inlined (methods of DualType etc.)
 	if uc == nil && !x.isOpaqueCallee(fu.Name) && x.autoInline(fu) {
 		return x.inlineCall(fu, recv, args, e, st)
 	}
+	x.calleeAbort(fu, uc, st)
 	return x.callOpaqueRepo(fu, recv, args, e, st)
 }
 
